@@ -1856,7 +1856,7 @@ fn ident_label(k: usize) -> String {
 
 fn eval_c14_framework(ctx: &mut Ctx, rng: &mut Rng) {
     // a framework produced by a store history over identifier labels
-    let len = rng.range(5, 50);
+    let len = if rng.pct(8) { rng.range(120, 400) } else { rng.range(5, 50) };
     let raw: Vec<Op<usize>> = gen_store_ops::<usize>(rng, len);
     let ops: Vec<Op<String>> = raw
         .iter()
@@ -1909,6 +1909,44 @@ fn eval_c14_framework(ctx: &mut Ctx, rng: &mut Rng) {
         Ok(Ok(b)) => b,
     };
     let (names, atts) = describe(&af);
+    // what the history *specifies* (plain set model: arguments in insertion order, attacks as a set);
+    // a store that lost or invented something would otherwise be round-tripped faithfully
+    {
+        let mut live: Vec<String> = Vec::new();
+        let mut att: BTreeSet<(String, String)> = BTreeSet::new();
+        for op in ops.iter() {
+            match op {
+                Op::AddArg(l) => {
+                    if !live.contains(l) {
+                        live.push(l.clone());
+                    }
+                }
+                Op::DelArg(l) => {
+                    live.retain(|x| x != l);
+                    att.retain(|(a, b)| a != l && b != l);
+                }
+                Op::AddAtt(a, b) => {
+                    if live.contains(a) && live.contains(b) {
+                        att.insert((a.clone(), b.clone()));
+                    }
+                }
+                Op::DelAtt(a, b) => {
+                    att.remove(&(a.clone(), b.clone()));
+                }
+            }
+        }
+        let idx = |l: &String| live.iter().position(|x| x == l).unwrap();
+        let mut spec_atts: Vec<(usize, usize)> = att.iter().map(|(a, b)| (idx(a), idx(b))).collect();
+        spec_atts.sort();
+        if live != names || spec_atts != atts {
+            ctx.violation(
+                "C14/framework-to-write-differs-from-the-history",
+                json!({"specified": {"arguments": live, "attacks": spec_atts}, "framework_exposes": {"arguments": names, "attacks": atts}}),
+                &case,
+            );
+            return;
+        }
+    }
     let text = String::from_utf8_lossy(&bytes).to_string();
     // independent reference parser
     match ref_parse_apx(&bytes) {
